@@ -657,7 +657,9 @@ fn deser_col_specs_generic<'frame, 'result>(
     make_col_spec: fn(&'frame str, ColumnType<'result>, TableSpec<'frame>) -> ColumnSpec<'result>,
     deser_type: fn(&mut &'frame [u8]) -> StdResult<ColumnType<'result>, CqlTypeParseError>,
 ) -> StdResult<Vec<ColumnSpec<'result>>, ColumnSpecParseError> {
-    let mut col_specs = Vec::with_capacity(col_count);
+    // `col_count` comes from the wire. Each column spec occupies at least 4 bytes
+    // (a [string] name and a type id), so do not reserve more than the buffer can hold.
+    let mut col_specs = Vec::with_capacity(col_count.min(buf.len() / 4));
     for col_idx in 0..col_count {
         let table_spec = match global_table_spec {
             // If global table spec was provided, we simply clone it to each column spec.
